@@ -263,6 +263,37 @@ W.contract(Contract('ENFA._get_states_leading_to_final', [('self', ENFA)], ret=S
                                   ForAll([y, a, z], Implies(And(e.leading_to_final[z], e.self.T[y, a, z]), e.leading_to_final[y]), patterns=[e.self.T[y, a, z]]))},
     hints=lambda o, e, r: [ForAll([x], closure_induction(ReachA, o.self.T.term, x, Lambda([y], Implies(Select(r.term, y), Select(r.term, x))), lambda yy, zz: Exists([a], o.self.T[yy, a, zz])))]))
 
+# ------------------------------------------------------------------ to_fst: the identity transducer over the same edges
+FSv, FSyv = TVal('FSv'), TVal('FSyv')                       # raw values of states / symbols, as the FST module uses them
+SeqFSy = TSeq(FSyv)
+FTr = TURec('FTr', [('p', FSv), ('a', FSyv), ('q', FSv), ('o', SeqFSy)])
+W.axioms += FTr.axioms()
+FSTV = TRec('FSTView', [('I', TSet(FSv)), ('F', TSet(FSv)), ('D', TSet(FTr))])
+stval = Function('state_value', St.sort(), FSv.sort()); syval = Function('symbol_value', Sy.sort(), FSyv.sort())
+W.fields[('St', 'value')] = (lambda o: Sym(FSv, stval(o.term))); W.fields[('Sy', 'value')] = (lambda o: Sym(FSyv, syval(o.term)))
+W.seq_literals = {FSyv}
+W.ctors['FST'] = lambda eng, e, st: FSTV.make(I=TSet(FSv).empty(), F=TSet(FSv).empty(), D=TSet(FTr).empty())
+def ftr(p_, a_, q_, o_): return FTr.make(p=Sym(FSv, p_), a=Sym(FSyv, a_), q=Sym(FSv, q_), o=Sym(SeqFSy, o_)).term
+W.contract(Contract('FSTView.add_start_state', [('self', FSTV), ('start_state', FSv)], ret=TNone, modifies=('self',),
+    ensures=lambda o, r, n: And(n.self.I == Store(o.self.I.term, o.start_state.term, True), n.self.F == o.self.F, n.self.D == o.self.D)))
+W.contract(Contract('FSTView.add_final_state', [('self', FSTV), ('final_state', FSv)], ret=TNone, modifies=('self',),
+    ensures=lambda o, r, n: And(n.self.F == Store(o.self.F.term, o.final_state.term, True), n.self.I == o.self.I, n.self.D == o.self.D)))
+W.contract(Contract('FSTView.add_transition', [('self', FSTV), ('s_from', FSv), ('input_symbol', FSyv), ('s_to', FSv), ('output_symbols', SeqFSy)], ret=TNone, modifies=('self',),
+    ensures=lambda o, r, n: And(n.self.D == Store(o.self.D.term, ftr(o.s_from.term, o.input_symbol.term, o.s_to.term, o.output_symbols.term), True), n.self.I == o.self.I, n.self.F == o.self.F)))
+ft_ = Const('ft_', FTr.sort()); v_ = Const('v_', FSv.sort())
+def out_of(sy): return If(sy == EPS, Empty(SeqFSy.sort()), Unit(syval(sy)))
+def tofst_D(D_, T_rel, cov):
+    return And(ForAll([ft_], Implies(D_[ft_], Exists([p, a, q], And(T_rel[p, a, q], cov(p, a, q), ft_ == ftr(stval(p), syval(a), stval(q), out_of(a))))), patterns=[D_[ft_]]),
+               ForAll([p, a, q], Implies(And(T_rel[p, a, q], cov(p, a, q)), D_[ftr(stval(p), syval(a), stval(q), out_of(a))]), patterns=[T_rel[p, a, q]]))
+W.contract(Contract('ENFA.to_fst', [('self', ENFA)], ret=FSTV, fresh_result=True,
+    ensures=lambda o, r, n: And(ForAll([v_], r.I[v_] == Exists([p], And(o.self.I[p], v_ == stval(p)))), ForAll([v_], r.F[v_] == Exists([p], And(o.self.F[p], v_ == stval(p)))),
+                                tofst_D(r.D, o.self.T, lambda *x_: BoolVal(True))),
+    locals={'output': SeqFSy},
+    loops={'0': lambda e, done: And(ForAll([v_], e.fst.I[v_] == Exists([p], And(done[p], v_ == stval(p)))), ForAll([v_], Not(e.fst.F[v_])), ForAll([ft_], Not(e.fst.D[ft_]))),
+           '1': lambda e, done: And(ForAll([v_], e.fst.I[v_] == Exists([p], And(e.self.I[p], v_ == stval(p)))), ForAll([v_], e.fst.F[v_] == Exists([p], And(done[p], v_ == stval(p)))), ForAll([ft_], Not(e.fst.D[ft_]))),
+           '2': lambda e, done: And(ForAll([v_], e.fst.I[v_] == Exists([p], And(e.self.I[p], v_ == stval(p)))), ForAll([v_], e.fst.F[v_] == Exists([p], And(e.self.F[p], v_ == stval(p)))),
+                                    tofst_D(e.fst.D, e.self.T, lambda pp, aa, qq: done[triple(pp, aa, qq)] > 0))}))
+
 # ------------------------------------------------------------------ is_empty
 def reach_from_I(A, yv):
     return Exists([p], And(A.I[p], ReachA(A.T.term, p, yv)))
@@ -716,6 +747,7 @@ W.super_of = {'NFA': ENFA, 'DFA': NFA}
 TARGETS.update({'NFA.accepts': (_PN, 'NondeterministicFiniteAutomaton.accepts'), 'NFA.is_deterministic': (_PN, 'NondeterministicFiniteAutomaton.is_deterministic'),
                 'DFA.accepts': (_PD, 'DeterministicFiniteAutomaton.accepts'), 'DFA.is_deterministic': (_PD, 'DeterministicFiniteAutomaton.is_deterministic')})
 TARGETS.update({f'ENFA.{m}': (_PF, f'FiniteAutomaton.{m}') for m in ['_get_next_states_from', '_get_reachable_states', '_get_states_leading_to_final']})
+TARGETS.update({'ENFA.to_fst': (_PF, 'FiniteAutomaton.to_fst')})
 TARGETS.update({'DFA.copy': (_PD, 'DeterministicFiniteAutomaton.copy'), 'DFA.to_deterministic': (_PD, 'DeterministicFiniteAutomaton.to_deterministic'),
                 'NFA.to_deterministic': (_PN, 'NondeterministicFiniteAutomaton.to_deterministic')})
 
